@@ -63,12 +63,23 @@ PROPS = {
         'rules': ['R-FIELDS', 'R-DUR', 'R-RESTART', 'R-ONCE', 'R-SPUR', 'R-EARLY', 'R-NEXT', 'R-DURABLE', 'R-SNAP',
                   'R-REPLY', 'R-CRASHFREE'],
         'gopts': {'property': 'C05'}, 'mopts': {'fields': True},
-        'quick': {'budget': 55, 'runs': 100000}, 'thorough': {'budget': 900, 'runs': 10000000},
+        'quick': {'budget': 40, 'runs': 100000}, 'thorough': {'budget': 900, 'runs': 10000000},
         'assumptions': [
             'field values contain no backslashes (escape semantics are undocumented); lines stay below the 1 KiB limit',
             'tasks of the strict campaign have one RRULE and no RDATE/EXDATE/EXRULE (known finding C05/serialise-multi is replayed separately)',
             'occurrence times after each restart are computed by the runner, not by echse',
         ],
+    },
+    'C05RT': {
+        'engine': 'simp', 'profile': 'C05RT', 'level': 'exploration', 'stage_of': 'C05',
+        'rules': ['R-RT', 'R-CRASHFREE'],
+        'gopts': {'avoid_multi': False}, 'mopts': {},
+        'quick': {'budget': 25, 'runs': 100000}, 'thorough': {'budget': 600, 'runs': 10000000},
+        'assumptions': [
+            'the oracle is the code itself: a control copy of the same task that consumed k occurrences and was never written; no second recurrence engine is involved, so wrong-but-consistent recurrence results (C01/C02) are invisible here',
+            'inputs on which the recurrence engine itself crashes or does not terminate within 10 s are set aside (counted as engine_crash / rt_timeout), they are C01/C02 matter',
+        ],
+        'technique': 'seeded simulation of the task life-cycle at the library seam: consume k, write (echs_task_icalify), re-read, compare with an unwritten control at every prefix k',
     },
     'C03': {
         'engine': 'simp', 'profile': 'C03', 'level': 'exploration',
@@ -200,6 +211,9 @@ def simp_module(doc):
     if doc.get('kind') == 'c03':
         from . import c03
         return c03
+    if doc.get('kind') == 'c05rt':
+        from . import c05rt
+        return c05rt
     if doc.get('kind') == 'c13':
         from . import c13
         return c13
@@ -261,8 +275,9 @@ def minimise_violation(prop, plan, v, cfg, want=None):
     return small, used
 
 
-def run_check(prop, tier, budget=None, runs=None, seed=None, workers=None, no_min=False):
-    cfg = PROPS[prop]
+def run_check(prop, tier, budget=None, runs=None, seed=None, workers=None, no_min=False, stage=None):
+    """STAGE: key of a PROPS entry that is a further campaign of property PROP"""
+    cfg = PROPS[stage or prop]
     t0 = time.time()
     if not build():
         return 2
@@ -270,7 +285,7 @@ def run_check(prop, tier, budget=None, runs=None, seed=None, workers=None, no_mi
     tc = cfg[tier]
     budget = budget or tc['budget']
     runs = runs or tc['runs']
-    known = [k for k in load_known() if k['property'] == prop]
+    known = [k for k in load_known() if k['property'] == prop and k.get('stage') == stage]
 
     # 1. known findings: replay their witnesses
     known_hit = 0
@@ -303,7 +318,7 @@ def run_check(prop, tier, budget=None, runs=None, seed=None, workers=None, no_mi
     relax = 0
     nvariants = ncalls = nvfired = 0
     simp_samples = []
-    for res in engine.campaign(prop, cfg['profile'], base_seed, tier, budget, runs,
+    for res in engine.campaign(stage or prop, cfg['profile'], base_seed, tier, budget, runs,
                                cfg.get('gopts'), cfg.get('mopts'), workers):
         n += 1
         if res.get('machinery'):
@@ -515,10 +530,39 @@ def run_check(prop, tier, budget=None, runs=None, seed=None, workers=None, no_mi
         ev['coverage']['exhaustive_within_each_history'] = True
         ev['coverage']['exhaustive'] = False
     os.makedirs(VERIF + '/evidence', exist_ok=True)
+    if stage:
+        # a further campaign of PROP: goes into PROP's evidence file
+        ev['coverage']['technique'] = cfg.get('technique')
+        path = '%s/evidence/%s.json' % (VERIF, prop)
+        try:
+            main_ev = json.load(open(path))
+        except (OSError, ValueError):
+            main_ev = {'property_id': prop, 'tier': tier, 'seed': base_seed, 'level': cfg['level'],
+                       'coverage': {}, 'assumptions': [], 'wall_s': 0, 'violations': 0}
+        ev['coverage']['assumptions'] = ev.pop('assumptions')
+        main_ev['coverage']['stage_' + stage] = ev['coverage']
+        main_ev['coverage']['stage_' + stage]['wall_s'] = ev['wall_s']
+        main_ev['violations'] = main_ev.get('violations', 0) + ev['violations']
+        main_ev['wall_s'] = round(main_ev.get('wall_s', 0) + ev['wall_s'], 2)
+        ev = main_ev
     with open('%s/evidence/%s.json' % (VERIF, prop), 'w') as f:
         json.dump(ev, f, indent=1)
-    print('%s %s: %d runs (%d distinct non-trivial), %.0f simulated s, %d violations, %.1f s wall' %
-          (prop, tier, n, len(nontrivial), simsec, len(out_viol), wall))
+    print('%s%s %s: %d runs (%d distinct non-trivial), %.0f simulated s, %d violations, %.1f s wall' %
+          (prop, '/' + stage if stage else '', tier, n, len(nontrivial), simsec, len(out_viol), wall))
+    return rc
+
+
+STAGES = {'C05': ['C05RT']}
+
+
+def run_all_stages(prop, tier, budget, runs, seed, workers, no_min):
+    rc = run_check(prop, tier, budget, runs, seed, workers, no_min)
+    for st in STAGES.get(prop, []):
+        b = None
+        if budget:
+            # an explicit budget is shared in the proportion of the registered ones
+            b = budget * PROPS[st][tier]['budget'] / float(PROPS[prop][tier]['budget'])
+        rc = max(rc, run_check(prop, tier, b, runs, seed, workers, no_min, stage=st))
     return rc
 
 
@@ -614,9 +658,9 @@ def main(argv):
     if a.seedrun is not None:
         debug_run(a.prop, 0, seed=a.seedrun, full=a.full)
         return 0
-    if not a.prop or a.prop not in PROPS:
+    if not a.prop or a.prop not in PROPS or PROPS[a.prop].get('stage_of'):
         print('usage: check <%s> [--tier quick|thorough]' % '|'.join(sorted(PROPS)))
         return 2
     if a.triage:
         return triage(a.prop, a.tier, a.budget or 20, a.runs or 100000, a.seed, a.workers)
-    return run_check(a.prop, a.tier, a.budget, a.runs, a.seed, a.workers, a.no_min)
+    return run_all_stages(a.prop, a.tier, a.budget, a.runs, a.seed, a.workers, a.no_min)
